@@ -248,7 +248,7 @@ func fqAlignedFile(r *rand.Rand, aligned int) []byte {
 		add(5+r.Intn(20), 100+r.Intn(100))
 	}
 	add(aligned-len(out)-3-150, 150)
-	for i := 0; i < 6; i++ {
+	for len(out) < 2*aligned+5000 { // (and as much again behind it: the refill that follows is a full one)
 		add(5+r.Intn(20), 100+r.Intn(100))
 	}
 	return out
@@ -307,7 +307,7 @@ func fastqDrive(args []string) error {
 			// '@' name LF seq LF: the LF of the sequence line is byte number `aligned` of the file
 			seq := 150
 			add(aligned-cur-3-seq, seq)
-			for i := 0; i < 6; i++ {
+			for cur < 2*aligned+5000 { // (and as much again behind it: the refill that follows is a full one)
 				add(5+r.Intn(20), 100+r.Intn(100))
 			}
 		}
